@@ -141,7 +141,7 @@ Definition vpost (m : mem) (v : iovs) (n : Z) (w : list byte) (ptr cnt : Z) (m' 
     Forall (el_ok (lens m)) out /\ psep out /\ prov out (i_el v) /\
     psep (i_el v') /\ prov (i_el v') (i_el v) /\ (forall o e, In o out -> In e (i_el v') -> sep o e) /\
     rd_iovecs m' ptr (length out) = Ok (firstn (Z.to_nat n) w, out) /\
-    flat m' (i_el v') = Ok (skipn (Z.to_nat n) w) /\ len out <= len (i_el v).
+    flat m' (i_el v') = Ok (skipn (Z.to_nat n) w) /\ len out <= len (i_el v) /\ i_nb v < i_cap v.
 
 Lemma efv_spec m v n w : inv m v -> 0 < n -> psep (i_el v) -> flat m (i_el v) = Ok w ->
   exists ret ptr cnt m' v', extract_front_view m v n = Ok (ret, ptr, cnt, m', v') /\
@@ -157,7 +157,7 @@ Proof.
   pose proof (len_nonneg (i_el v)) as Hc0. unfold do_malloc.
   destruct (INT_MAX <? len (i_el v) * 16) eqn:EH; [apply Z.ltb_lt in EH; unfold INT_MAX in *; lia|].
   destruct (i_cap v <=? i_nb v) eqn:EC.
-  { cbn [bind]. cbn. intros H. inversion H. left. auto. }
+  { cbn [bind]. rewrite Z.eqb_refl. intros H. inversion H. left. auto. }
   apply Z.leb_gt in EC. cbn [bind].
   pose proof (len_nonneg m) as Hlm.
   destruct (region_base_bound (len m) ltac:(lia)) as [B1 B2].
@@ -193,7 +193,7 @@ Proof.
   { intros a k Hv. rewrite (Fr2 a k (Hsl a k Hv)). unfold m1. apply load_app. exact Hv. }
   split; [exact Helo|]. split; [exact Hpo|]. split; [exact Hpv|]. split; [exact Hps'|]. split; [exact Hpv'|].
   split; [exact Hsep|]. split; [rewrite Hrd, Hd; reflexivity|].
-  split; [|lia].
+  split; [|split; lia].
   assert (Q : forall el, Forall (el_ok (lens m)) el -> flat m2 el = flat m el).
   { induction 1 as [|[eb l] rr Hee _ IHr]; [reflexivity|]. cbn [flat]. destruct Hee as [_ [Hv _]]. cbn [fst snd] in Hv.
     rewrite (Fr2 eb l (Hsl eb l Hv)). unfold m1. rewrite (load_app m _ eb l Hv), IHr. reflexivity. }
